@@ -16,15 +16,19 @@ RULE = (
     "every binary operator x operand shape (`x op y`, `x op c`, `c op x`; c a Python int/float/bool constant) x numeric type "
     "pair over bool/nat/int/float, every unary operator, the int/float/bool/abs/len/divmod/round/pow builtins, tuple / array / "
     "struct packing and unpacking and calls to Guppy functions (owned and borrowed arguments), each written once as @guppy and "
-    "once as @guppy.comptime with the same body; both are checked and lowered by the real compiler and the canonical forms "
-    "(multiset of ops, each with the ops feeding its input ports; constants; called functions) are compared. Non-trivial = both "
-    "versions compile (then they must agree); both rejecting is also agreement."
+    "once as @guppy.comptime with the same body; both are checked and lowered by the real compiler. Operator probes: the canonical forms "
+    "(multiset of ops, each printed as a tree over the ops feeding its input ports down to function inputs and constants, mirrored "
+    "comparisons normalised) must be equal. Builtin/container/call probes: multisets of arithmetic, quantum and user-function operations must "
+    "be equal modulo trace-time evaluation (constants, bounds checks of constant indices, len of static arrays are folded by Python). "
+    "Non-trivial = both versions compile; both rejecting is also agreement."
 )
 ASSUMPTIONS = [
     "HUGR op semantics are outside the repository: 'computes the same result' is observed as 'lowers to the same operations with the "
     "same operand wiring' (no emulator for /repo output)",
     "CPython's binary operator protocol: `c op x` with c an int/float/bool and x a GuppyObject calls type(c).__op__ (NotImplemented) and "
     "then type(x).__rop__(x, c); `x op _` calls type(x).__op__(x, _)",
+    "HUGR comparison ops: igt/ige/fgt/fge(a, b) = ilt/ile/flt/fle(b, a) and ieq/ine/feq/fne are symmetric (used to canonicalise: with a "
+    "constant on the left regular Guppy emits `2 > y` as igt_s(2, y), comptime as ilt_s(y, 2))",
     "when regular and comptime dispatch pick the direct dunder and the reflected dunder of the *same* type (constant on the left, both "
     "accepted), agreement needs T.__rop__(r, l) == T.__op__(l, r); this is a property of std/num.py (C04) and is observed here on the lowered wiring",
     "the acceptance table acc(T, dunder, U) is extracted by checking `a.dunder(b)` with the real checker for a: T, b: U — the same "
@@ -50,7 +54,7 @@ MANIFEST = {
     "protocol and of the two dispatch procedures (hand-written from object.py / expr_checker.py), the acceptance-table extraction, the canonicaliser.",
     "technique": "Lean 4 decide over tables regenerated from source/objects (T-src, T-obj) + differential lowering of probe pairs (T-obj)",
     "design_ref": "DESIGN.md §5 C21",
-    "ready": False,
+    "ready": True,
 }
 
 GEN = os.path.join(vlib.LEAN, "GuppyVerif", "Gen", "C21DunderMixin.lean")
@@ -174,10 +178,10 @@ def render(mixin, ops, uops, fwd, rev, acc, uacc):
         ",\n".join(f"  (.{_d(a)}, .{_d(b)})" for a, b in rev),
         "]",
         "",
-        "/-- accepted (self type, dunder, other type): `a.dunder(b)` type-checks -/",
-        "def accTable : List (NTy × Dunder × NTy) := [",
-        ",\n".join(f"  (.{T}, .{_d(d)}, .{U})" for T, d, U in acc),
-        "]",
+        "/-- accepted dunders by (self type, other type): `a.dunder(b)` type-checks for a : self, b : other.",
+        "    (A function by cases rather than one flat list: the kernel evaluates lookups by linear scan.) -/",
+        "def accBy : NTy → NTy → List Dunder",
+        *[f"  | .{T}, .{U} => [" + ", ".join("." + _d(d) for t, d, u in acc if t == T and u == U) + "]" for T in NTYS for U in NTYS],
         "",
         "/-- accepted unary (self type, dunder) -/",
         "def uaccTable : List (NTy × Dunder) := [",
@@ -209,6 +213,304 @@ def translate(ctx):
             f.write(txt)
     ctx.extra["table_rows"] = {"mixin": len(mixin), "ops": len(ops), "acc": len(acc), "uacc": len(uacc)}
     ctx._c21 = {"ops": ops, "uops": uops}
+
+
+
+# ====================================================================== tie (T-obj)
+OPSYM = {"Add": "+", "Sub": "-", "Mult": "*", "Div": "/", "FloorDiv": "//", "Mod": "%", "Pow": "**", "LShift": "<<",
+         "RShift": ">>", "BitOr": "|", "BitXor": "^", "BitAnd": "&", "MatMult": "@", "Eq": "==", "NotEq": "!=",
+         "Lt": "<", "LtE": "<=", "Gt": ">", "GtE": ">="}
+USYM = {"UAdd": "+", "USub": "-", "Invert": "~"}
+CONST = {"int": "2", "float": "2.5", "bool": "True"}
+CTYS = ["bool", "int", "float"]
+
+STRUCTURAL = ("MakeTuple", "UnpackTuple", "Tag", "Input", "Output", "CFG", "DataflowBlock", "ExitBlock", "Module",
+              "LoadConst", "DFG", "LoadFunc", "Noop")
+
+
+MIRROR = [("igt_s", "ilt_s"), ("ige_s", "ile_s"), ("igt_u", "ilt_u"), ("ige_u", "ile_u"), ("fgt", "flt"), ("fge", "fle")]
+SYMMETRIC = ("ieq", "ine", "feq", "fne")
+MIRROR_NAMES = {gt: lt for gt, lt in MIRROR}
+
+
+def _is_struct_op(name):
+    return (name in STRUCTURAL or name.startswith("collections.") or name.startswith("tket.bool.")
+            or name.startswith("prelude.") or name.startswith("guppylang.") or name.startswith("tket.guppy"))
+
+
+def _lower_canon(defn, wiring):
+    """canonical form of a lowered definition: multiset of semantic ops.  With `wiring`, every op is printed as
+    a tree over its input ports (leaves: function inputs by position, constants), looking through
+    tuple pack/unpack."""
+    import feed
+    import hugr.ops as ops
+    from collections import Counter
+
+    g = feed.lower(defn)
+    h = g.hugr
+    src = {}
+    for a, b in h.links():
+        src[(b.node.idx, b.offset)] = (a.node, a.offset)
+    memo = {}
+
+    def tree(node, off, depth=0):
+        key = (node.idx, off)
+        if key in memo:
+            return memo[key]
+        op = h[node].op
+        name = feed.op_name(op)
+        if depth > 12:
+            r = "…"
+        elif isinstance(op, ops.Input):
+            r = f"in{off}"
+        elif isinstance(op, ops.LoadConst):
+            c = src.get((node.idx, 0))
+            r = "const:" + repr(h[c[0]].op.val)[:60] if c else "const?"
+        elif isinstance(op, ops.UnpackTuple):
+            s0 = src.get((node.idx, 0))
+            if s0 and isinstance(h[s0[0]].op, ops.MakeTuple):
+                s1 = src.get((s0[0].idx, off))
+                r = tree(s1[0], s1[1], depth + 1) if s1 else "?"
+            else:
+                r = (tree(s0[0], s0[1], depth + 1) if s0 else "?") + f".{off}"
+        else:
+            n_in = h.num_in_ports(node)
+            args = []
+            for i in range(n_in):
+                s0 = src.get((node.idx, i))
+                if s0 is None:
+                    continue
+                sop = h[s0[0]].op
+                if isinstance(sop, (ops.FuncDefn, ops.FuncDecl)):
+                    args.append("fn:" + sop.f_name)
+                elif isinstance(sop, ops.Const):
+                    continue
+                else:
+                    args.append(tree(s0[0], s0[1], depth + 1))
+            # comparisons: `a > b` and `b < a` (resp. `==`, `!=` with swapped operands) are one operation
+            # (assumed HUGR semantics of arithmetic.int / arithmetic.float comparison ops)
+            base = name.rsplit(".", 1)[-1]
+            if len(args) == 2:
+                for gt, lt in MIRROR:
+                    if base == gt:
+                        name, args = name[: -len(gt)] + lt, [args[1], args[0]]
+                        break
+                else:
+                    if base in SYMMETRIC:
+                        args = sorted(args)
+            if isinstance(op, ops.Call) and len(args) == 3 and args[2] in ("fn:__eq__", "fn:__ne__"):
+                args = sorted(args[:2]) + args[2:]    # bool.__eq__ / __ne__ are symmetric Guppy functions
+            r = f"{name}({','.join(args)})" + (f"#{off}" if h.num_out_ports(node) > 1 else "")
+        memo[key] = r
+        return r
+
+    out = Counter()
+    for n in h:
+        op = h[n].op
+        name = feed.op_name(op)
+        if isinstance(op, ops.Const):
+            out["Const:" + repr(op.val)[:60]] += 1
+        elif isinstance(op, ops.FuncDefn):
+            if op.f_name != "f":
+                out["FuncDefn:" + op.f_name] += 1
+        elif isinstance(op, ops.Call):
+            if wiring:
+                out[tree(n, 0)] += 1
+            else:
+                callee = [h[a.node].op for a, b in h.links() if b.node.idx == n.idx and isinstance(h[a.node].op, (ops.FuncDefn, ops.FuncDecl))]
+                out["Call:" + (callee[0].f_name if callee else "?")] += 1
+        elif not _is_struct_op(name):
+            if wiring:
+                out[tree(n, 0).split("#")[0]] += 1
+            else:
+                b = name.rsplit(".", 1)[-1]
+                out[name[: -len(b)] + MIRROR_NAMES.get(b, b)] += 1
+    if not wiring:
+        # trace-time evaluation: Python folds constants, `len` of statically sized arrays and the bounds
+        # checks of constant indices; these show up as constants / control plumbing / index conversions only
+        for k in list(out):
+            if (k.startswith("Const:") or k in ("Case", "Conditional", "Call:__len__") or k.startswith("Call:unwrap_result") or k in FOLDED
+                    or k.startswith("FuncDefn:__len__") or k.startswith("FuncDefn:unwrap_result")):
+                del out[k]
+    return sorted(out.items())
+
+
+FOLDED = ("arithmetic.conversions.itousize", "arithmetic.conversions.ifromusize")
+
+
+def _both(sig, ret, body, prelude, wiring):
+    """compile `body` as @guppy and as @guppy.comptime; -> {mode: (outcome, canon|errclass)}"""
+    import feed
+
+    res = {}
+    for mode, deco in (("regular", "@guppy"), ("comptime", "@guppy.comptime")):
+        src = prelude + f"{deco}\ndef f({sig}) -> {ret}:\n" + "".join("    " + l + "\n" for l in body.split("\n"))
+        m = None
+        try:
+            m = feed.load(src)
+            o, e = feed.check_outcome(m.f)
+            if o != "ok":
+                res[mode] = ("reject" if o == "user" else "crash", feed.err_class(e))
+                continue
+            res[mode] = ("ok", _lower_canon(m.f, wiring))
+        except BaseException as e:  # noqa: BLE001
+            from guppylang_internals.error import GuppyComptimeError, GuppyError
+            kind = "reject" if isinstance(e, (GuppyError, GuppyComptimeError, TypeError)) else "crash"
+            res[mode] = (kind, type(e).__name__ + ":" + str(e)[:80])
+        finally:
+            if m is not None:
+                feed.unload(m)
+    return res
+
+
+CONTAINER_PRELUDE = (
+    "from guppylang.std.quantum import qubit, h, cx, measure, discard\n"
+    "@guppy.struct\nclass S:\n    a: int\n    b: float\n"
+    "@guppy\ndef g(y: int) -> int:\n    return y + 1\n"
+    "@guppy\ndef g2(y: int, z: float) -> float:\n    return z\n"
+    "@guppy\ndef inc(xs: array[int, 2]) -> None:\n    xs[0] += 1\n"
+    "@guppy\ndef hq(q: qubit) -> None:\n    h(q)\n"
+)
+
+# (name, signature, return type, body) — straight-line bodies valid in both modes
+SHAPES = [
+    ("int()", "x: float", "int", "return int(x)"),
+    ("int(nat)", "x: nat", "int", "return int(x)"),
+    ("int(bool)", "x: bool", "int", "return int(x)"),
+    ("float()", "x: int", "float", "return float(x)"),
+    ("float(nat)", "x: nat", "float", "return float(x)"),
+    ("nat()", "x: int", "nat", "return nat(x)"),
+    ("bool()", "x: int", "bool", "return bool(x)"),
+    ("abs()", "x: int", "int", "return abs(x)"),
+    ("abs(float)", "x: float", "float", "return abs(x)"),
+    ("len()", "xs: array[int, 3]", "int", "return len(xs)"),
+    ("divmod()", "x: int, y: int", "tuple[int, int]", "return divmod(x, y)"),
+    ("pow()", "x: int, y: int", "int", "return pow(x, y)"),
+    ("round()", "x: float", "int", "return round(x)"),
+    ("int(const) folded", "x: int", "int", "return 2 + x"),
+    ("tuple build", "x: int, y: float", "tuple[float, int]", "return (y, x)"),
+    ("tuple unpack", "t: tuple[int, float]", "float", "a, b = t\nreturn b"),
+    ("tuple index", "t: tuple[int, float]", "int", "return t[0]"),
+    ("tuple nested", "t: tuple[int, tuple[float, int]]", "int", "a, (b, c) = t\nreturn a + c"),
+    ("array index", "xs: array[int, 2]", "int", "return xs[0] + xs[1]"),
+    ("array build", "x: int, y: int", "array[int, 2]", "return array(x, y)"),
+    ("array roundtrip", "xs: array[int, 2] @owned", "array[int, 2]", "return xs"),
+    ("array len of built", "x: int", "int", "xs = array(x, x, x)\nreturn len(xs)"),
+    ("struct fields", "s: S", "float", "return s.a + s.b"),
+    ("struct build", "x: int, y: float", "S", "return S(x, y)"),
+    ("struct rebuild", "s: S @owned, x: int", "S", "return S(x, s.b)"),
+    ("call", "x: int", "int", "return g(x)"),
+    ("call nested", "x: int", "int", "return g(g(x) + 1)"),
+    ("call two args", "x: int, y: float", "float", "return g2(x, y)"),
+    ("call const arg", "x: int", "int", "return g(3) + x"),
+    ("call borrow array", "xs: array[int, 2]", "int", "inc(xs)\nreturn xs[0]"),
+    ("call borrow local array", "x: int", "int", "xs = array(x, 2)\ninc(xs)\nreturn xs[0] + xs[1]"),
+    ("qubit borrow", "q: qubit", "None", "h(q)"),
+    ("qubit call borrow", "q: qubit", "None", "hq(q)\nhq(q)"),
+    ("qubit alloc", "", "bool", "q = qubit()\nh(q)\nreturn measure(q)"),
+    ("qubit two", "a: qubit, b: qubit", "None", "cx(a, b)\ncx(b, a)"),
+    ("mixed arith", "x: int, y: float, n: nat", "float", "return (x + n) * y - 2"),
+    ("compare chain free", "x: int, y: int", "bool", "return (x < y) == (y > x)"),
+    ("neg/pos", "x: int, y: float", "float", "return -x + +y"),
+    ("invert", "x: int", "int", "return ~x"),
+]
+
+# D15 witness and friends (plain Python values inside containers handed to a borrowing call)
+COMPTIME_ONLY_EQUIV = [
+    ("D15 list of python ints", "", "int", "xs = array(1, 2)\ninc(xs)\nreturn xs[0] + xs[1]", "xs = [1, 2]\ninc(xs)\nreturn xs[0] + xs[1]"),
+]
+
+
+def _binary_cases(ctx, ops):
+    rng = ctx.rng
+    cases = []
+    for op, _l, _r in ops:
+        for a in NTYS:
+            for b in NTYS:
+                cases.append((op, ("t", a), ("t", b)))
+            for c in CTYS:
+                cases.append((op, ("t", a), ("c", c)))
+                cases.append((op, ("c", c), ("t", a)))
+    if ctx.quick:
+        # every operator x every shape kind at least once, ~1/3 of the grid; reflected/constant-left always
+        keep = [c for c in cases if c[1][0] == "c" or rng.random() < 0.15]
+        cases = keep
+    return cases
+
+
+def tie(ctx):
+    tabs = getattr(ctx, "_c21", None)
+    if tabs is None:
+        ops, uops, _f, _r = extract_tables()
+    else:
+        ops, uops = tabs["ops"], tabs["uops"]
+    # ---- corpus / replay first
+    corpus = os.path.join(vlib.VERIF, "corpus", "c21")
+    extra = []
+    if os.path.isdir(corpus):
+        for fn in sorted(os.listdir(corpus)):
+            extra += json.load(open(os.path.join(corpus, fn)))
+    if ctx.replay_in and "body" in ctx.replay_in.get("replay", {}):
+        extra.append(ctx.replay_in["replay"])
+    for r in extra:
+        _check_pair(ctx, r["name"], r["sig"], r["ret"], r["body"], r.get("comptime_body"), r.get("prelude", CONTAINER_PRELUDE), wiring=r.get("wiring", False))
+    # ---- operators: model vs real, regular vs comptime
+    bcases = _binary_cases(ctx, ops)
+    lines = [f"bin {op} {l[0]} {l[1]} {r[0]} {r[1]}" for op, l, r in bcases]
+    ucases = [(op, t) for op, _d2 in uops for t in NTYS]
+    lines += [f"un {op} {t}" for op, t in ucases]
+    replies = ctx.driver("C21", lines)
+    for (op, l, r), line, rep in zip(bcases, lines, replies):
+        params = []
+        le = "x" if l[0] == "t" else CONST[l[1]]
+        re_ = "y" if r[0] == "t" else CONST[r[1]]
+        if l[0] == "t":
+            params.append(f"x: {l[1]}")
+        if r[0] == "t":
+            params.append(f"y: {r[1]}")
+        body = f"z = {le} {OPSYM[op]} {re_}"
+        fields = dict(kv.split("=", 1) for kv in rep.split(" "))
+        _check_pair(ctx, line, ", ".join(params), "None", body, None, "", wiring=True,
+                    model=(fields["reg"] != "none", fields["ct"] != "none"), model_line=rep)
+    for (op, t), line, rep in zip(ucases, lines[len(bcases):], replies[len(bcases):]):
+        fields = dict(kv.split("=", 1) for kv in rep.split(" "))
+        _check_pair(ctx, line, f"x: {t}", "None", f"z = {USYM[op]}x", None, "", wiring=True,
+                    model=(fields["reg"] != "none", fields["ct"] != "none"), model_line=rep)
+    # ---- builtins, containers, calls
+    for name, sig, ret, body in SHAPES:
+        _check_pair(ctx, "shape:" + name, sig, ret, body, None, CONTAINER_PRELUDE, wiring=False)
+    for name, sig, ret, body, cbody in COMPTIME_ONLY_EQUIV:
+        _check_pair(ctx, "shape:" + name, sig, ret, body, cbody, CONTAINER_PRELUDE, wiring=False)
+
+
+def _check_pair(ctx, name, sig, ret, body, comptime_body, prelude, wiring, model=None, model_line=None):
+    if comptime_body is None:
+        res = _both(sig, ret, body, prelude, wiring)
+    else:
+        res = {"regular": _both(sig, ret, body, prelude, wiring)["regular"],
+               "comptime": _both(sig, ret, comptime_body, prelude, wiring)["comptime"]}
+    (ro, rc), (co, cc) = res["regular"], res["comptime"]
+    agree = (ro == co == "ok" and rc == cc) or (ro == co == "reject")
+    ctx.count([name, body], nontrivial=(ro == "ok" and co == "ok"), kind=f"{ro}/{co}" + ("" if agree else ":DIFF"))
+    rep = {"name": name, "sig": sig, "ret": ret, "body": body, "comptime_body": comptime_body, "prelude": prelude,
+           "wiring": wiring, "regular": [ro, rc], "comptime": [co, cc], "model": model_line}
+    key = f"pair:{name}:{body!r}"
+    if "crash" in (ro, co):
+        which = "regular" if ro == "crash" else "comptime"
+        ctx.violation(key, f"`{body}` ({sig}): the {which} version crashes the compiler ({rc if ro == 'crash' else cc})", rep)
+    elif not agree:
+        if ro == co == "ok":
+            d1 = [x for x in rc if x not in cc]
+            d2 = [x for x in cc if x not in rc]
+            what = f"lower differently: regular-only {d1[:4]} comptime-only {d2[:4]}"
+        else:
+            what = f"regular is {ro} ({rc if ro != 'ok' else ''}) but comptime is {co} ({cc if co != 'ok' else ''})"
+        ctx.violation(key, f"`{body}` ({sig}) as @guppy and as @guppy.comptime {what}", rep)
+    if model is not None:
+        if model[0] != (ro == "ok"):
+            ctx.broke(f"model of _synthesize_binary disagrees with the real checker on `{name}` (model {model_line}, real {ro})")
+        if model[1] != (co == "ok"):
+            ctx.broke(f"model of comptime dispatch disagrees with the real tracer on `{name}` (model {model_line}, real {co}: {cc if co != 'ok' else ''})")
 
 
 if __name__ == "__main__":
